@@ -19,6 +19,7 @@ CLAIMS = {
  "C14": "Round-trip theorems for a single SCT and for SCT lists of any length (generic many0(complete(..)) lemma), every field exact; over-long list gives Incomplete with the exact count; an over-long entry is not decoded (the list stops before it).",
  "C04": "Round-trip theorem for all 17 handshake variants against RFC encoders (value modulo slice offsets, exact consumption, remainder untouched; absent vs empty extension block and session id, list order, opaque bodies), including the alt(TLS1.2, legacy) CertificateRequest disambiguation; confinement to the 24-bit length as an equation for every input; rejection theorems (session id > 32, odd/over-long cipher list, over-long compression list, short ticket, over-long certificate list / status blob, unsupported ServerHello version, unknown type, cut-off message), each universally quantified; dispatch and version tables re-read from the source each run.",
  "C05": "The three dispatchers are interpreters of tables regenerated from the source's match blocks; proved: the generic table is the IANA assignment, the client/server tables agree with it, the GREASE test selects exactly the 16 RFC 8701 values (all 65536 types by kernel computation), the 16 tag constants are the IANA types; round-trip of all 26 typed variants for every well-formed content through any dispatcher that lists the type, GREASE and unknown types preserved byte-for-byte, whole extension blocks (generic many0 lemma), dispatcher agreement as a general lemma, empty-only extensions rejected with data, over-long length never a value. Differential: all 65536 types x three dispatchers, all variants, tag parsers on right and wrong types.",
+ "C10": "13-byte header round-trip with the epoch/sequence bit split proved (shiftr/land lemmas) for all 16-bit epochs and 48-bit sequence numbers; record framing characterised for every body (cap, TooLarge, exact Needed, exact consumption); the 12-byte handshake header characterised for every field value: fragment iff offset>0 or fragment shorter than the message, otherwise the body parser selected by the regenerated table runs on exactly the fragment bytes; round-trip of the six supported bodies (ClientHello with any cookie length); datagrams via the C16 theorem.",
 }
 def chk(pid):
     return {"property_id": pid, "quick_cmd": "./check %s --tier quick" % pid, "thorough_cmd": "./check %s --tier thorough" % pid,
